@@ -189,7 +189,8 @@ def replay_clauses(prop, cfg):
                 "C03_RowsOnGhostOnly"] if bc_ok else [],
         "C01": (["C01_ClosedDiffusion", "C01_ClosedCentral", "C01_ClosedUpwind", "C01_ClosedDivergence"]
                 if zero_on_boundary() and cfg["cls"] != "SphericalGrid3D" else []),
-        "C07": [], "C17": [],
+        "C07": [], "C17": [], "C08": [],
+        "C11": ["C11_Linear", "C11_Arithmetic", "C11_Harmonic", "C11_Upwind", "C11_UpwindRepeat"],
     }
     return table.get(prop, [])
 
@@ -303,7 +304,7 @@ def run_property(prop, tier, seed, *, clauses_for, n_quick, n_thorough, gen_kw=N
 
 DESIGN_INVARIANTS = {
     "C01": ["DC01", "DC01_Geometric", "DC01_Open"], "C03": ["DC03"], "C04": ["DC04"], "C05": ["DC05_Diffusion", "DC05_Central", "DC05_Upwind"],
-    "C06": ["DC06"], "C07": ["DC07"], "C17": ["DC17"],
+    "C06": ["DC06"], "C07": ["DC07"], "C17": ["DC17"], "C08": ["DC08"], "C11": ["DC11"],
 }
 
 
